@@ -180,12 +180,12 @@ def run_gen(spec, res):
             try:
                 if via is None:
                     ss = gn.build_system(pnet, config_path=rc)
-                elif via == "m":
-                    path = os.path.join(sd, "%s.m" % tag.split("[")[0])
+                elif via in ("m", "raw"):
+                    path = os.path.join(sd, "%s.%s" % (tag.split("[")[0], via))
                     with open(path, "w") as f:
-                        f.write(fm.mpc_text(pnet))
+                        f.write(fm.mpc_text(pnet) if via == "m" else fm.raw_text(pnet))
                     ss = au.load(path, config_path=rc)
-                    res.count("via_matpower_text")
+                    res.count("via_matpower_text" if via == "m" else "via_raw_text")
                 else:
                     ss0 = gn.build_system(pnet, config_path=rc)
                     path = os.path.join(sd, "%s.%s" % (tag.split("[")[0], via))
@@ -231,9 +231,9 @@ def run_gen(spec, res):
             m, lib, ls, ip = combos[int(rng.integers(0, len(combos)))]
             if m == "NK" and rng.random() < 0.7:
                 m = "NR"
-            via = [None, None, "xlsx", "json", "m"][int(rng.integers(0, 5))]
-            if via == "m":
-                style = "num"      # MATPOWER can only carry numeric bus numbers
+            via = [None, None, "xlsx", "json", "m", "raw"][int(rng.integers(0, 6))]
+            if via in ("m", "raw"):
+                style = "num"      # MATPOWER / RAW can only carry numeric bus numbers
             p = gn.present(net, rng, shuffle=shuffle, idx_style=style, rebase=rebase)
             pi = gn.present(net, np.random.default_rng(0), shuffle=False, idx_style=style, rebase=False)
             busmap = {b0["idx"]: b1["idx"] for b0, b1 in zip(net["bus"], pi["bus"])}
@@ -241,11 +241,13 @@ def run_gen(spec, res):
             rc = rc_for(sd, "v%d" % v, method=m, lib=lib, linsolve=ls, ipadd=ip, tol=tol, mva=net["mva"])
             tag = "var%d[%s%s%s %s/%s/ls%d/ip%d%s]" % (v, style, "+shuffle" if shuffle else "", "+rebase" if rebase else "",
                                                         m, lib, ls, ip, "+via-" + via if via else "")
-            if via == "m" and not fm.can_carry(p, "m"):
+            if via in ("m", "raw") and not fm.can_carry(p, via):
                 via = None
             # NK has its own stopping rule (SciPy f_tol); dishonest NR is linearly convergent: the
             # "converges from a flat start" clause is decided on full NR, the others are counted.
             solve_presentation(tag, p, rc, tol if m != "NK" else 6e-6, busmap, method=m, check_conv=(m == "NR"), via=via)
+            if via == "raw" and runs and runs[-1][0] == tag:
+                runs[-1] = (tag, runs[-1][1], 1e-6, "raw-text")      # the text carries 6 decimals for set-points: own tolerance class
 
         # --- agreement between presentations and with the reference solver
         # The reference for voltages models ANDES' documented +1e-8 on r and x, so that agreement
